@@ -11,6 +11,7 @@
 #include <fstream>
 #include <sstream>
 #include <unordered_set>
+#include <signal.h>
 #include "gen.h"
 #include "guard.h"
 #include "run.h"
@@ -37,6 +38,28 @@ static void asan_report_cb(const char *) {
     char buf[160];
     int n = snprintf(buf, sizeof buf, "CJSIM-ARENA: %s\n", c);
     if (n > 0) { ssize_t wr = write(2, buf, (size_t)n); (void)wr; }
+}
+// A write into memory the library only borrows (constant pool, lent strings: read-only mappings) arrives as SIGSEGV: name it
+// for the driver, then let the sanitizer's (or the default) handler produce its report.
+static struct sigaction g_prev_segv;
+static void segv_handler(int sig, siginfo_t *si, void *uc) {
+    if (si && borrowed::contains(si->si_addr)) {
+        static const char msg[] = "CJSIM-BORROWED: write-to-borrowed-memory\n";
+        ssize_t wr = write(2, msg, sizeof msg - 1); (void)wr;
+    }
+    if ((g_prev_segv.sa_flags & SA_SIGINFO) && g_prev_segv.sa_sigaction) { g_prev_segv.sa_sigaction(sig, si, uc); return; }
+    if (!(g_prev_segv.sa_flags & SA_SIGINFO) && g_prev_segv.sa_handler != SIG_DFL && g_prev_segv.sa_handler != SIG_IGN) { g_prev_segv.sa_handler(sig); return; }
+    signal(sig, SIG_DFL);
+    raise(sig);
+}
+static void install_segv_handler() {
+    struct sigaction sa;
+    memset(&sa, 0, sizeof sa);
+    if (sigaction(SIGSEGV, nullptr, &g_prev_segv) != 0) return;
+    sa.sa_sigaction = segv_handler;
+    sa.sa_flags = SA_SIGINFO | SA_ONSTACK | SA_NODEFER;
+    sigemptyset(&sa.sa_mask);
+    sigaction(SIGSEGV, &sa, nullptr);
 }
 static Plan gen_any(const std::string &prop, uint64_t seed, int64_t run) {
     std::string e = engine_of(prop);
@@ -260,6 +283,8 @@ static void real_main(void *a) {
     std::string mode = argv[1];
     asim::init();
     if (__asan_set_error_report_callback) __asan_set_error_report_callback(asan_report_cb);
+    pool();
+    install_segv_handler();
     if (mode == "gen") x->rc = do_gen(argc, argv);
     else if (mode == "batch") x->rc = do_batch(argc, argv);
     else if (mode == "replay") x->rc = do_replay(argc, argv);
